@@ -1,10 +1,10 @@
 package main
 
 import (
-	"strings"
-	"sync"
 	"encoding/json"
 	"fmt"
+	"strings"
+	"sync"
 	"time"
 )
 
@@ -132,6 +132,9 @@ func genSeq(cfg Config, emit Emit, mode string, nq, nt, attPct int) {
 		if attPct == 100 && i%3 != 1 {
 			// a session that is needed and proper: the verdict flips when its attestation's window closes / opens
 			oo.properSession, oo.sessionPct = true, 100
+		} else if i%3 == 2 {
+			// served twice: an otherwise valid chain, so that the verdict flips at the boundary
+			oo.properSession, oo.sessionPct = true, 30
 		}
 		w := genWorld(cfg.Rng, 0, oo, &class)
 		normalize(w)
